@@ -227,6 +227,23 @@ def run(ctx):
                 docs.append(("probe", mappyfile.loads(t, include_position=pos), "map", []))
             except Exception:  # noqa
                 pass
+    # directed: a wrong-typed / out-of-range member inside a list-of-lists keyword (SYMBOL POINTS: the error path ends in
+    # TWO list indices; reachable only through the dictionary API, a string inside SYMBOL POINTS does not parse)
+    for pos in (False, True):
+        for j, k, bad in ((1, 1, "abc"), (0, 0, "x"), (2, 0, True), (1, 0, [1])):
+            try:
+                d = mappyfile.loads("MAP NAME 'm' SYMBOL NAME 's' TYPE VECTOR POINTS 1 1 2 3 4 5 END END LAYER NAME 'l' TYPE POINT END END", include_position=pos)
+                pts = [list(q) for q in d["symbols"][0]["points"]]
+                pts[j][k] = bad
+                d["symbols"][0]["points"] = pts
+                docs.append(("fault", d, "map", [dict(kind="type", path=["symbols", 0], key="points", names="points", object_level=False, in_list=True)]))
+                s0 = mappyfile.loads("SYMBOL NAME 's' TYPE VECTOR POINTS 1 1 2 3 4 5 END END", include_position=pos)
+                pts = [list(q) for q in s0["points"]]
+                pts[j][k] = bad
+                s0["points"] = pts
+                docs.append(("fault", s0, "symbol", [dict(kind="type", path=[], key="points", names="points", object_level=False, in_list=True)]))
+            except Exception:  # noqa
+                pass
     n_valid = ctx.budget(40, 800)
     for i in range(n_valid):
         try:
